@@ -1,5 +1,6 @@
 import SJ.Proofs.Machine
 import SJ.Proofs.EarliestMain
+import SJ.Proofs.EarliestDead
 /-!
 # C11 — syntax errors point at the first offending byte
 
@@ -330,6 +331,15 @@ example : parseTop envI ([0x7b, 0x22, 0x61, 0x22, 0x3a, 0x31, 0x2c] ++
 def envSl : Env := { cfg := {}, src := .slice, tgt := .value }
 example : parseTop envSl [0x22, 0xff, 0x01] = .err .ControlCharacterWhileParsingString 3 := rfl
 example : parseTop envSl [0x22, 0xff, 0x22] = .err .InvalidUnicodeCodePoint 3 := rfl
+
+/-- the first of them, proved: the error of `"\xff` U+0001 is reported at byte 3, yet already the
+    first two bytes have no accepted continuation (so the conclusion of `c11_earliest` fails, and the
+    hypothesis `SideOK` with it: the state after `"\xff` is not `Utf8Viable`) -/
+theorem c11_sideOK_needed :
+    parseTop envSl [0x22, 0xff, 0x01] = .err .ControlCharacterWhileParsingString 3 ∧
+    ∀ ys v, parseTop envSl (([0x22, 0xff, 0x01] : Bytes).take (3 - 1) ++ ys) ≠ .ok v :=
+  ⟨rfl, SJ.Proofs.Earliest.dead_prefix envSl rfl (by decide) [0x22, 0xff]
+    ⟨[0xff], .none, false, false⟩ [] rfl SJ.Proofs.Earliest.utf8Dead_ff⟩
 example : (parseTop envS (0x31 :: List.replicate 309 0x30 ++ [0x65, 0x2b, 0x78])).isErr .InvalidNumber 313 = true := by
   decide +kernel
 example : (parseTop envS (0x31 :: List.replicate 309 0x30 ++ [0x65, 0x2b, 0x30])).isErr .NumberOutOfRange 313 = true := by
